@@ -1,6 +1,7 @@
 package harness
 
 import (
+	"strings"
 	"encoding/json"
 	"fmt"
 	"os"
@@ -124,7 +125,7 @@ func (c *Ctx) startWatchdog() {
 				h = heapMB()
 			}
 			if h-h0 > heapLimit {
-				c.watchdogFire("runaway-memory", fmt.Sprintf("the heap grew from %d to %d MB of objects during one simulated run (limit: %d MB of growth): a call into the code under test allocates without bound", h0, h, heapLimit), seed, cs, rp)
+				c.watchdogFire("runaway-memory", fmt.Sprintf("the heap grew from %d to %d MB of objects during one simulated run (limit: %d MB of growth): a call into the code under test allocates without bound%s", h0, h, heapLimit, libFrames()), seed, cs, rp)
 			}
 			if b := beats.Load(); b != lastBeats {
 				lastBeats, lastProgress = b, time.Now()
@@ -175,4 +176,27 @@ func (c *Ctx) watchdogFire(class, detail string, seed int64, cs json.RawMessage,
 	}
 	_ = os.RemoveAll(c.Scratch)
 	os.Exit(0)
+}
+
+// libFrames returns the frames of the code under test that are on some goroutine's stack right now (diagnostics for
+// the watchdog's reports).
+func libFrames() string {
+	buf := make([]byte, 1<<20)
+	buf = buf[:runtime.Stack(buf, true)]
+	var out []string
+	for _, l := range strings.Split(string(buf), "\n") {
+		if (strings.Contains(l, "go-sstables/") || strings.Contains(l, "bloomfilter")) && !strings.HasPrefix(l, "\t") {
+			if i := strings.LastIndex(l, "("); i > 0 {
+				l = l[:i]
+			}
+			out = append(out, l)
+			if len(out) >= 8 {
+				break
+			}
+		}
+	}
+	if len(out) == 0 {
+		return ""
+	}
+	return "; library frames on the stacks: " + strings.Join(out, " <- ")
 }
